@@ -246,21 +246,41 @@ impl<const D: usize> World<D> {
         s
     }
 
+    /// the cells as sorted lists of protocol vertex ids, `a,b,c;d,e,f`
+    pub fn cell_id_sets(&mut self) -> String {
+        let cells: Vec<Vec<VertexKey>> = self.dt.cells().map(|(_, c)| c.vertices().to_vec()).collect();
+        let mut out: Vec<String> = Vec::with_capacity(cells.len());
+        for vks in cells {
+            let mut ids = self.vk_ids(&vks);
+            ids.sort_unstable();
+            out.push(ids.iter().map(|x| x.to_string()).collect::<Vec<_>>().join(","));
+        }
+        out.join(";")
+    }
+
     /// one insertion (plain or statistics variant); returns observations
     pub fn do_insert(&mut self, p: [f64; D], with_stats: bool, rng: &mut Rng) -> (Vec<(String, String)>, bool) {
         let before = fingerprint(self.dt.tds());
         let nb = self.dt.number_of_vertices();
+        // the cell sets before the call, for the cavity-step tie (only once cells exist)
+        let cav_pre = if self.dt.number_of_cells() > 0 && self.dt.number_of_cells() <= 400 { Some(self.cell_id_sets()) } else { None };
+        let mut cav_stats: Option<(usize, usize)> = None;
         let v = self.vertex(p, rng);
         let u = v.uuid();
         let d = v.data;
         let mut obs: Vec<(String, String)> = Vec::new();
         let mut inserted = false;
         let res: Result<Result<Option<VertexKey>, String>, String> = if with_stats {
-            catch(|| match self.dt.insert_with_statistics(v) {
-                Ok((InsertionOutcome::Inserted { vertex_key, .. }, _)) => Ok(Some(vertex_key)),
+            let r = catch(|| match self.dt.insert_with_statistics(v) {
+                Ok((InsertionOutcome::Inserted { vertex_key, .. }, st)) => Ok((Some(vertex_key), Some((st.attempts, st.cells_removed_during_repair)))),
                 Ok((InsertionOutcome::Skipped { error }, _)) => Err(format!("skipped:{}", tri::err_kind(&format!("{error:?}")))),
                 Err(e) => Err(format!("err:{}", tri::err_kind(&format!("{e:?}")))),
-            })
+            });
+            match r {
+                Ok(Ok((k, st))) => { cav_stats = st; Ok(Ok(k)) }
+                Ok(Err(e)) => Ok(Err(e)),
+                Err(m) => Err(m),
+            }
         } else {
             catch(|| match self.dt.insert(v) {
                 Ok(k) => Ok(Some(k)),
@@ -281,6 +301,11 @@ impl<const D: usize> World<D> {
                 obs.push(("key_resolves".into(), if ok { "1".into() } else { "0 returned key does not resolve to the caller's uuid/data".into() }));
                 let na = self.dt.number_of_vertices();
                 obs.push(("one_added".into(), if na == nb + 1 { "1".into() } else { format!("0 vertices {nb} -> {na}") }));
+                if let Some(pre) = cav_pre {
+                    let vid = self.ids.id(u);
+                    let (att, rem) = cav_stats.map_or(("-".to_string(), "-".to_string()), |(a, r)| (a.to_string(), r.to_string()));
+                    obs.push(("cav".into(), format!("{vid} repair={} attempts={att} removed={rem} {pre}", !matches!(self.dt.delaunay_repair_policy(), delaunay::core::delaunay_triangulation::DelaunayRepairPolicy::Never) as u8)));
+                }
             }
             Ok(Ok(None)) => {}
         }
